@@ -19,6 +19,9 @@ setup_path()
 KNOWN_FILE = os.path.join(VERIF_DIR, "known_findings.json")
 REPLAY_DIR = os.path.join(VERIF_DIR, "replays")
 EVIDENCE_DIR = os.path.join(VERIF_DIR, "evidence")
+if os.environ.get("VERIF_REPO", "/repo").rstrip("/") != "/repo" or os.environ.get("VERIF_SCRATCH_EVIDENCE"):
+    # runs against another tree (mutants, the original snapshot) must not overwrite the evidence of /repo
+    EVIDENCE_DIR = os.path.join(VERIF_DIR, "evidence", "alt")
 
 
 class Violation:
@@ -395,7 +398,7 @@ def main(argv=None):
         except Exception:
             pass
         h = case_hash([vj["clause"], vj["sig"], trace])
-        rel = os.path.join("evidence", "replay", f"{prop}-{h}.json")
+        rel = os.path.join(os.path.relpath(EVIDENCE_DIR, VERIF_DIR), "replay", f"{prop}-{h}.json")
         with open(os.path.join(VERIF_DIR, rel), "w") as f:
             json.dump({"property": prop, "clause": vj["clause"], "sig": vj["sig"], "detail": vj["detail"], "trace": trace}, f, indent=1, default=str)
         violations_out.append((vj["clause"], rel, vj["detail"]))
